@@ -28,6 +28,8 @@ type labRun struct {
 	OpenAPI  bool
 	Builders bool
 	Convert  bool
+	// VeneersDir: directory with builder veneer files (*.yaml), "" = none
+	VeneersDir string
 }
 
 func (lr labRun) pipeline() (*codegen.Pipeline, error) {
@@ -51,6 +53,9 @@ func (lr labRun) pipeline() (*codegen.Pipeline, error) {
 	p.Output.Types = true
 	p.Output.Builders = lr.Builders
 	p.Output.Converters = lr.Convert
+	if lr.VeneersDir != "" {
+		p.Transforms.VeneersDirectories = []string{lr.VeneersDir}
+	}
 	if lr.GoCfg != nil {
 		p.Output.Languages = append(p.Output.Languages, &codegen.OutputLanguage{Go: lr.GoCfg})
 	}
